@@ -146,6 +146,8 @@ def run(ctx):
                     r.ok("%s: write guarded by the value it writes (%s)" % (m.short, x))
     if r.n == 0:
         r.vacuous_ok = True
+    ctx.borrow("c17", "C17-R1", "C14-R6", "any border style: customising one table's style never changes another table - the object handed out by a memoising factory "
+               "(BorderStyle.none/ascii/solid) is copied, never mutated or handed on as a style's own")
     return ctx.results
 
 
